@@ -468,3 +468,36 @@ def finish(ev):
         time.time() - ev.t0))
     sys.stdout.flush()
     return 1 if ev.violations else 0
+
+
+def evict_build_outputs(limit_gb=10.0, keep_gb=5.0):
+    """Harness objects and binaries are cached under build/obj and build/bin by content hash; every change of a harness or of
+    the tree adds a new set (sanitizer binaries are large).  Keep the disk bounded: above `limit_gb` the oldest files go until
+    `keep_gb` remain, sparing whatever was written in the last three hours (a concurrent check may be using it)."""
+    import time
+    files = []
+    total = 0
+    for sub in ("bin", "obj"):
+        d = os.path.join(BUILD, sub)
+        if not os.path.isdir(d):
+            continue
+        for root, _, names in os.walk(d):
+            for n in names:
+                p = os.path.join(root, n)
+                try:
+                    st = os.stat(p)
+                except OSError:
+                    continue
+                files.append((st.st_mtime, st.st_size, p))
+                total += st.st_size
+    if total < limit_gb * 1e9:
+        return
+    now = time.time()
+    for mtime, size, p in sorted(files):
+        if total < keep_gb * 1e9 or now - mtime < 3 * 3600:
+            break
+        try:
+            os.remove(p)
+            total -= size
+        except OSError:
+            pass
